@@ -313,6 +313,9 @@ def cases(draw, tier):
             "calls": [draw(call_shape(forwarded_ok=group not in ("enter", "exit"))) for _ in range(6 if tier == "quick" else 8)]}
 
 
+FUZZ_RUNS = {"thorough": 4000}  # libFuzzer runs per shard of the coverage-guided sub-engine (vcheck/fuzz.py)
+
+
 def strategy(tier):
     return cases(tier)
 
